@@ -1,0 +1,98 @@
+//go:build verif
+// +build verif
+
+package vm
+
+// Read-only verification hooks (property C16). Nothing here is compiled into
+// the node; the file only exists under the `verif` build tag.
+//
+// VerifJumpTable returns, for every opcode byte 0..255 of the instruction set
+// that NewInterpreter actually installs, the columns of the jump table as the
+// code derives them: the flags, the interval of stack heights accepted by the
+// operation's validateStack closure (found by probing the closure), whether a
+// memorySize function exists, and the gas charged on an all-zero stack of
+// minimal height with empty memory (the constant part of the gas function).
+
+import (
+	"math/big"
+
+	"github.com/LemoFoundationLtd/lemochain-core/chain/params"
+	"github.com/LemoFoundationLtd/lemochain-core/common"
+)
+
+type VerifOp struct {
+	Op            int
+	Valid         bool
+	MinStack      int  // smallest accepted stack height
+	MaxStack      int  // largest accepted stack height (<= StackLimit)
+	StackInterval bool // accepted heights are exactly MinStack..MaxStack
+	Writes        bool
+	Halts         bool
+	Reverts       bool
+	Jumps         bool
+	Returns       bool
+	HasMem        bool   // memorySize != nil
+	MinGas        uint64 // gasCost on a zero stack of height MinStack, empty memory, memorySize 0
+	GasProbeOK    bool   // the probe returned without error/panic
+}
+
+func verifStack(n int) *Stack {
+	st := newstack()
+	for i := 0; i < n; i++ {
+		st.push(new(big.Int))
+	}
+	return st
+}
+
+// VerifJumpTable probes the table installed by NewInterpreter(evm, Config{}).
+func VerifJumpTable(am AccountManager) [256]VerifOp {
+	evm := NewEVM(Context{}, am, Config{})
+	in := evm.interpreter
+	var out [256]VerifOp
+	limit := int(params.StackLimit)
+	for i := 0; i < 256; i++ {
+		o := in.cfg.JumpTable[i]
+		v := VerifOp{Op: i, Valid: o.valid, Writes: o.writes, Halts: o.halts, Reverts: o.reverts,
+			Jumps: o.jumps, Returns: o.returns, HasMem: o.memorySize != nil, MinStack: -1, MaxStack: -1}
+		if !o.valid || o.validateStack == nil || o.gasCost == nil || o.execute == nil {
+			out[i] = v
+			continue
+		}
+		accepted := 0
+		for n := 0; n <= limit; n++ {
+			if o.validateStack(verifStack(n)) == nil {
+				if v.MinStack < 0 {
+					v.MinStack = n
+				}
+				v.MaxStack = n
+				accepted++
+			}
+		}
+		v.StackInterval = v.MinStack >= 0 && accepted == v.MaxStack-v.MinStack+1
+		if v.MinStack >= 0 {
+			func() {
+				defer func() {
+					if r := recover(); r != nil {
+						v.GasProbeOK = false
+					}
+				}()
+				self := AccountRef(common.HexToAddress("0x7e57c16"))
+				c := NewContract(self, self, new(big.Int), 1<<40)
+				g, err := o.gasCost(in.gasTable, evm, c, verifStack(v.MinStack), NewMemory(), 0)
+				v.MinGas = g
+				v.GasProbeOK = err == nil
+			}()
+		}
+		out[i] = v
+	}
+	return out
+}
+
+// VerifDepth is the current call depth (evm.depth).
+func (evm *EVM) VerifDepth() int { return evm.depth }
+
+// VerifReadOnly is the interpreter's static-call flag.
+func (evm *EVM) VerifReadOnly() bool { return evm.interpreter.readOnly }
+
+// VerifCallGasTemp is the gas computed by the last gasCall*/callGas (63/64 rule).
+func (evm *EVM) VerifCallGasTemp() uint64 { return evm.callGasTemp }
